@@ -81,6 +81,16 @@ def run_case(case, rec=None):
             files = t.rec.ih5_files
             committed = files[-2] if len(files) >= 2 else files[-1]
             check_commit(sess, committed, state["exts"])
+        if kind == "reopen" and t.commits >= 1:
+            # the manifest of the last commit is what a reopened record reports (also while an uncommitted patch exists)
+            try:
+                got = t.rec.manifest.manifest_exts
+            except Exception as e:  # noqa: BLE001
+                raise Violation("C10:manifest-not-available-after-reopen", f"{type(e).__name__}: {e} ({len(t.rec.ih5_files)} containers, "
+                                f"{t.commits} committed)", "manifest of the last commit")
+            if got != state["exts"]:
+                raise Violation("C10:manifest-exts-wrong:after-reopen", got, state["exts"])
+            classes.add("manifest_after_reopen")
 
     sess = H.Session(lambda: H.IH5Target(IH5MFRecord, "rec"), placement="generated", check_every=False, sig_prefix="C10",
                      on_boundary=on_b)
@@ -292,7 +302,8 @@ root_attr_patch = st.builds(lambda v, c: [["commit"], ["setattr", "/", "ra", v],
 def cases(max_ops):
     base = st.lists(st.one_of(H.data_op.map(list), H.data_op.map(list), H.data_op.map(list), commit_op,
                               st.tuples(st.just("del"), H.ref, H.ref).map(list),
-                              st.just(["reopen", "r+", True]), st.just(["discard"])), min_size=2, max_size=max_ops)
+                              st.just(["reopen", "r+", True]), st.just(["reopen", "r+", False]), st.just(["reopen", "a", False]),
+                              st.just(["discard"])), min_size=2, max_size=max_ops)
     hist = st.builds(lambda h, extra, pos: h[:pos % (len(h) + 1)] + extra + h[pos % (len(h) + 1):], base,
                      st.one_of(st.just([]), root_attr_patch), st.integers(0, 50))
     upd_op = st.one_of(H.data_op.map(list).filter(lambda o: o[0] in EXIST_KINDS),
